@@ -120,7 +120,17 @@ C09_ZeroEnd(R, i, k) ==
         l == G(e, R.sc.grid[k])  z == G(e, R.sc.grid[k + 1])  r == G(e, R.sc.grid[k + 2])
         fully == ~(R.intr /\ k + 1 >= R.K)                  \* both steps were processed completely
     IN  (z = 0 /\ StrictOpp(l, r, e.dir) /\ fully) => CountIn(R, i, k) + CountIn(R, i, k + 1) \in {1, 2}
+\* a function with a single known root: every reported event of it is located at that root (root-finder accuracy)
+C09_Located(R) ==
+    \A i \in 1..Len(R.sc.evs) : Len(R.sc.evs[i].roots) = 1 =>
+        \A j \in 1..Len(R.tev[i]) : Abs(R.tev[i][j].t - R.sc.evs[i].roots[1] * U) <= RootT * U
+\* what the same run without the terminal flag reports before the stopping point is reported by the terminal run too
+KeepsEarlier(R) ==
+    R.intr => \A i \in 1..Len(R.nt.tev) : \A j \in 1..Len(R.nt.tev[i]) :
+                 R.nt.tev[i][j].t < StopT(R) => (j <= Len(R.tev[i]) /\ R.tev[i][j] = R.nt.tev[i][j])
 C09_Inv(R) == /\ \A i \in 1..Len(R.sc.evs) : \A k \in 1..R.K : C09_Step(R, i, k)
+              /\ C09_Located(R)
+              /\ KeepsEarlier(R)
               /\ \A i \in 1..Len(R.sc.evs) : \A k \in 1..(R.K - 1) : C09_ZeroEnd(R, i, k)
 
 (* ---------------------------------------------------------------- C10 *)
@@ -170,6 +180,7 @@ Clauses(R) ==
       <<"C09", "sign_changes",   C09_Inv(R)>>,
       <<"C10", "stop",           C10_Stop(R)>>,
       <<"C10", "prefix",         C10_Prefix(R)>>,
+      <<"C10", "keeps_earlier",  KeepsEarlier(R)>>,
       <<"C03", "samples",        C03_Samples(R)>>,
       <<"C03", "last_is_end",    C03_LastIsEnd(R)>>,
       <<"C18", "intervals",      C18_Intervals(R)>>,
